@@ -121,6 +121,21 @@ func evalC20(c *core.Ctx, e *eco.Eco, op string, args []string) []core.Violation
 				list = append(list, tok)
 			}
 		}
+		// the bound as the range parser may have read it: pieces between the list separators with zero, one or two leading
+		// operator / bracket characters and at most one trailing bracket removed ("((2.9,)" has the bound "(2.9" for a
+		// parser that strips one bracket and accepts any text as a version)
+		for _, piece := range strings.FieldsFunc(rs, func(c rune) bool { return strings.ContainsRune(" ,|", c) }) {
+			for k := 0; k <= 2 && k < len(piece); k++ {
+				for _, t := range []string{piece[k:], strings.TrimRight(piece[k:], ")]")} {
+					if t == "" || len(list) > 40 {
+						continue
+					}
+					if v, err, pn := e.SafeNewVersion(t); accepted(isNilVer(v), err, pn) {
+						list = append(list, t)
+					}
+				}
+			}
+		}
 		if inheritedNonTransitive(e, uniq(list)) {
 			rule += ":inherited-from-reference"
 		}
